@@ -15,10 +15,11 @@ pub fn atom_text(code: u8) -> &'static str {
         3 => "\n",
         4 => "\r\n",
         5 => "\r",
-        6 => " // x++; selfdestruct(msg.sender); a.transfer(b); pragma solidity ^0.4.0; c >= d\n",
-        7 => " // y--; keccak256(z); require(a && b, \"s\"); address(0) == q; w * 4\r\n",
-        8 => " /* x++; selfdestruct(msg.sender); t.approve(u, 1); a / b * c; */ ",
-        9 => " /* x++;\n selfdestruct(msg.sender);\n for (;i < a.length;) {} */ ",
+        // (comments also carry what other tools read as directives: a comment is a comment)
+        6 => " // x++; selfdestruct(msg.sender); a.transfer(b); pragma solidity ^0.4.0; c >= d solstat-ignore-next-line solhint-disable-next-line\n",
+        7 => " // y--; keccak256(z); require(a && b, \"s\"); address(0) == q; w * 4 solstat:ignore noqa nosolstat\r\n",
+        8 => " /* x++; selfdestruct(msg.sender); t.approve(u, 1); a / b * c; solstat-ignore slither-disable-next-line all */ ",
+        9 => " /* x++; solstat-disable\n selfdestruct(msg.sender);\n for (;i < a.length;) {} solstat-enable @custom:solstat-skip */ ",
         10 => " /* \u{e9}\u{fc}\u{20ac} x++; address(this).balance; v == true */ ",
         _ => " ",
     }
